@@ -1,7 +1,7 @@
 (** C02 — single regexp, LINE mode, end to end on the model: gatherMatches, then fillMatches (breakMatchesOnNewlines +
     fillContentMatches): the reported fragments cover exactly the bytes of the engine's matches minus newline bytes. *)
 From ZV Require Import Lib.Base Lib.GoSearch Lib.RuneCount Model.Lines Model.Ranges
-  Proofs.LinesBasic Proofs.LinesMatch Proofs.LinesBreakCover Proofs.RangesGather.
+  Proofs.LinesBasic Proofs.RuneCountProofs Proofs.LinesMatch Proofs.LinesChunk Proofs.LinesBreakCover Proofs.RangesGather.
 From Coq Require Import ZifyBool ZifyNat Sorting.Sorted.
 
 (** byte p lies in a fragment of a reported line match *)
@@ -83,4 +83,34 @@ Proof.
   { apply disjoint_off_sorted; auto. }
   exists res. split; [exact Er|]. split; [exact R1|].
   intros p. rewrite frag_covered_keys, R4, <- covered_keys. apply Cb.
+Qed.
+
+(** ---- CHUNK mode end to end on the model: gatherMatches, then fillChunkMatches.  Under the hypothesis of the C03 chunk
+    theorem (kept content ranges in bounds, starting and ending on rune boundaries of their lines) the Ranges of the
+    reported chunks are, in order, exactly the kept content ranges with C03's locations ([range_spec]: byte offsets
+    c_off / c_end, their lines, rune columns) — nothing is split, dropped or added. *)
+Theorem chunk_mode_ranges : forall nl c name ctx cands, (0 <= ctx)%Z ->
+  filter is_content (gather nl cands) <> [] ->
+  Forall (chunk_cand_ok c) (filter is_content (gather nl cands)) ->
+  exists res, fill_chunk_matches (newlines_of c) c name ctx (gather nl cands) = Ok res /\
+    flat_map cm_ranges res = map (range_spec c) (filter is_content (gather nl cands)) /\
+    Forall (fun cm => cm_fn cm = false) res.
+Proof.
+  intros nl c name ctx cands Hctx Hne Hok.
+  assert (Hcne : cands <> []) by (intros ->; apply Hne; reflexivity).
+  destruct (gather_spec nl cands Hcne) as [_ [Hs _]]. cbv zeta in Hs.
+  set (ms := filter is_content (gather nl cands)) in *.
+  assert (Hfn : Forall (fun m => c_fn m = false) ms).
+  { rewrite Forall_forall. intros x Hx. apply filter_In in Hx. destruct Hx as [_ Hx].
+    unfold is_content in Hx. now destruct (c_fn x). }
+  assert (Hsorted : is_sorted_by cand_less ms = true).
+  { apply sorted_le_key_is_sorted_by. apply StronglySorted_filter. exact Hs. }
+  destruct (fill_content_chunk_matches_spec c ctx ms Hfn Hsorted Hok) as [E [_ [_ Hflat]]].
+  unfold fill_chunk_matches. fold ms.
+  destruct ms as [|m0 ms0] eqn:Ems; [congruence|]. rewrite <- Ems in *.
+  rewrite E. eexists. split; [reflexivity|]. split.
+  - rewrite <- Hflat at 2. clear.
+    induction (chunk_candidates (newlines_of c) ctx ms) as [|ch r IH]; [reflexivity|].
+    cbn [map flat_map]. rewrite IH, map_app. reflexivity.
+  - rewrite Forall_map. rewrite Forall_forall. intros ch _. reflexivity.
 Qed.
